@@ -47,6 +47,22 @@ Proof.
   destruct Hx as [->|Hx]; [apply H2; apply in_or_app; now right|eapply IH; eauto].
 Qed.
 
+(* an entry whose key occurs with one value only is what sto_get (= load_outputs on that position) returns *)
+Lemma sto_get_in : forall (st : sto) idx x, In (idx, x) st -> (forall x', In (idx, x') st -> x' = x) ->
+  sto_get st idx = Some x.
+Proof.
+  assert (Heq : forall k k' : list nat, list_eqb Nat.eqb k k' = true <-> k = k').
+  { induction k as [|a k IH]; intros [|b k']; simpl; split; intros H; try discriminate; try reflexivity.
+    - apply andb_true_iff in H. destruct H as [H1 H2]. apply Nat.eqb_eq in H1. apply IH in H2. now subst.
+    - inversion H; subst. apply andb_true_iff. split; [apply Nat.eqb_refl|now apply IH]. }
+  induction st as [|[k y] st IH]; intros idx x Hin Hu; [destruct Hin|]. simpl.
+  destruct (list_eqb Nat.eqb k idx) eqn:E.
+  - apply Heq in E. subst k. f_equal. apply Hu. left. reflexivity.
+  - destruct Hin as [Hin|Hin].
+    + inversion Hin; subst. assert (X : list_eqb Nat.eqb idx idx = true) by (apply Heq; reflexivity). congruence.
+    + apply IH; [exact Hin|]. intros x' Hx'. apply Hu. right. exact Hx'.
+Qed.
+
 (* ------------------------------------------------------------------ monotonicity of the store *)
 Definition arr_le (s s' : store_t) : Prop :=
   forall o sh m st, dict_get s o = Some (SArr sh m st) ->
